@@ -23,7 +23,8 @@ Dependency suites (rules/deps.py; each obligation is a necessary condition of th
 kernel-build (C07.T-conn, C07.T-ite0, C07.R-ite, S.F-memo ite_cache, S.R-node, S.R-new, S.W-store, C06.W-ctor), kernel-restrict
 (C07.R-restrict, S.F-memo restrict_cache) and translation (C09.A-wire, C09.A-term, C09.F-order, C09.A-name, C01.A-hybrid): an answer
 is computed on diagrams built by these functions, on every back-end.  cli-plumbing (C08.F-input, C10.P-cli, C10.F-print): what every answer
-printed by adf-bdd passes through, whatever the semantics. nogood-primitives (C18.T-prim, T-subsume, T-conflict, P-final, closure exits: a spurious conflict prunes a consistent branch)."""
+printed by adf-bdd passes through, whatever the semantics. nogood-primitives (C18.T-prim, T-subsume, T-conflict, P-final, closure exits: a spurious conflict prunes a consistent branch).
+C05.P-emit also decides that the nogood learned after an emission is from_term_vec of the emitted vector itself (a weaker nogood loses two-valued models)."""
 NOT_DECIDED = "Termination and exactness over all search histories, arbitrary custom heuristics and all Rand seeds: a ranking argument over unbounded branching histories is out of reach."
 TECHNIQUE = "static analysis: loop-cut path summaries of nogood_internal (guards/effects per exit), ownership/drop analysis of the Sender in MIR, registry agreement with index provenance"
 
